@@ -174,7 +174,7 @@ Proof.
     assert (K : loc_ok c v (mkLocal (l_target l) (l_obj l) (l_fail l) (l_new l) (Some (s_ident s)) (l_vseen l) (l_extra l) (l_stop l) (l_out l))).
     { unfold loc_ok. simpl. rewrite Si. auto. }
     destruct (l_obj l) as [o|]; injection I as <- <-; (split; [repeat split; assumption|]).
-    + destruct (o_owner o =? s_ident s); [exact K|apply fail_ok, K].
+    + destruct ((o_owner o =? s_ident s) || (o_owner o =? PUBLIC)); [exact K|apply fail_ok, K].
     + apply fail_ok, K.
   - (* MCreate *)
     destruct (active l); injection I as <- <-; [|split; [repeat split; assumption|exact Hl]].
@@ -194,6 +194,9 @@ Proof.
   - (* MAttrs *)
     destruct (active l); injection I as <- <-; (split; [repeat split; assumption|]); [|exact Hl].
     unfold loc_ok. simpl. rewrite Sa. auto.
+  - (* MState *)
+    destruct (active l); injection I as <- <-; (split; [repeat split; assumption|]); [|exact Hl].
+    unfold loc_ok. simpl. auto.
   - (* MQuery *)
     destruct (active l); injection I as <- <-; (split; [repeat split; assumption|]); [|exact Hl].
     unfold loc_ok. simpl. rewrite Sv. auto.
